@@ -267,7 +267,7 @@ def check(case):
                     break
                 for r, rp in zip(g['rows'], ref):
                     scale = max(1e-30, np.abs(rp.pt).max())
-                    if np.abs(np.array(r['p']) - rp.pt).max() > 2e-6 * scale + 5e-7 + 3 * tol:
+                    if np.abs(np.array(r['p']) - rp.pt).max() > 5e-6 * scale + 1.0000001e-6 + 3 * tol:     # fixed-point field: 1e-6 absolute
                         fails.append(('table:coordinates', 'row %d prints %s, joint is %s' % (r['no'], r['p'], list(rp.pt))))
                         break
     except report.ParseError as e:
